@@ -37,7 +37,7 @@ import (
 )
 
 type c19Setup struct {
-	K string `json:"k"` // acquire | produce (Acquire through handleProduce) | release | expire | expirelazy (R = partition of the observing call) | restart | releaseall | orphan (every lease that is no manager's current session expires)
+	K string `json:"k"` // acquire | produce (Acquire through handleProduce) | release | expire | expirelazy (R = partition of the observing call) | drainhold (ReleaseAll with its revoke applied but unanswered until the end of the case) | restart | releaseall | orphan (every lease that is no manager's current session expires)
 	B int    `json:"b"` // 0 = the handler's broker ("1"), 1 = the other broker ("2")
 	R int    `json:"r"` // index into c19Pool
 }
@@ -108,6 +108,7 @@ type c19World struct {
 	granted   []clientv3.LeaseID
 	revoked   []int // lease numbers revoked by the setup op being executed
 	kv0       *c19KV
+	draining  func() // delivers the held-back revoke answer of a ReleaseAll in progress
 }
 
 func (w *c19World) newMgr(b int) *metadata.PartitionLeaseManager {
@@ -117,7 +118,7 @@ func (w *c19World) newMgr(b int) *metadata.PartitionLeaseManager {
 	}
 	w.clients = append(w.clients, cli)
 	// every lease the managers' sessions are granted is recorded so that it can be expired / cleaned up
-	cli.Lease = &c19Lease{Lease: cli.Lease, w: w, b: b}
+	cli.Lease = &c19Lease{Lease: cli.Lease, w: w, b: b, arrived: make(chan struct{}, 1), release: make(chan struct{}, 1)}
 	if b == 0 {
 		w.kv0 = &c19KV{KV: cli.KV, arrived: make(chan struct{}, 1), release: make(chan struct{}, 1)}
 		cli.KV = w.kv0
@@ -174,8 +175,11 @@ func (t *c19Txn) Commit() (*clientv3.TxnResponse, error) {
 
 type c19Lease struct {
 	clientv3.Lease
-	w *c19World
-	b int
+	w          *c19World
+	b          int
+	holdRevoke bool
+	arrived    chan struct{}
+	release    chan struct{}
 }
 
 // leases granted through a manager's client and not yet expired by the harness (AcquireAll
@@ -185,6 +189,18 @@ var (
 	c19Mu      sync.Mutex
 	c19Current = map[*c19Lease][]clientv3.LeaseID{}
 )
+
+// Revoke can hold back the answer after etcd applied the revocation (ReleaseAll's session.Close
+// is then still running while the keys are gone).
+func (l *c19Lease) Revoke(ctx context.Context, id clientv3.LeaseID) (*clientv3.LeaseRevokeResponse, error) {
+	resp, err := l.Lease.Revoke(ctx, id)
+	if l.holdRevoke {
+		l.holdRevoke = false
+		l.arrived <- struct{}{}
+		<-l.release
+	}
+	return resp, err
+}
 
 func (l *c19Lease) Grant(ctx context.Context, ttl int64) (*clientv3.LeaseGrantResponse, error) {
 	resp, err := l.Lease.Grant(ctx, ttl)
@@ -210,6 +226,44 @@ func (w *c19World) setup(op c19Setup) {
 		_ = m.Acquire(ctx, res.topic, res.part)
 	case "release":
 		m.Release(res.topic, res.part)
+	case "drainhold":
+		// ReleaseAll whose LeaseRevoke is applied by etcd but not yet answered: the following
+		// pre-state ops and the main request run inside that window; the answer is delivered
+		// at the end of the case. Same model events as releaseall (the map is cleared first).
+		l, ok := m.EtcdClient().Lease.(*c19Lease)
+		c19Mu.Lock()
+		n := 0
+		if ok {
+			n = len(c19Current[l])
+		}
+		c19Mu.Unlock()
+		if !ok || n == 0 || w.draining != nil {
+			op.K = "releaseall"
+			w.setup(op)
+			return
+		}
+		c19Mu.Lock()
+		for _, id := range c19Current[l] {
+			for n, g := range w.granted {
+				if g == id {
+					w.revoked = append(w.revoked, n+1)
+				}
+			}
+		}
+		delete(c19Current, l)
+		c19Mu.Unlock()
+		// monitorSession (woken by Session.Close ending the keep-alive) must not hide what
+		// ReleaseAll itself does
+		_, _, _ = m.VerifDetachMonitor()
+		l.holdRevoke = true
+		done := make(chan struct{})
+		go func() { m.ReleaseAll(); close(done) }()
+		select {
+		case <-l.arrived:
+			w.draining = func() { l.release <- struct{}{}; <-done }
+		case <-done:
+			l.holdRevoke = false
+		}
 	case "releaseall":
 		// both steps of ReleaseAll: the model event ReleaseAll (local part) followed by the
 		// expiry of the session lease it revokes (lease number = order of grant)
@@ -285,6 +339,10 @@ func (w *c19World) setup(op c19Setup) {
 }
 
 func (w *c19World) cleanup() {
+	if w.draining != nil {
+		w.draining()
+		w.draining = nil
+	}
 	ctx, cancel := context.WithTimeout(context.Background(), 20*time.Second)
 	defer cancel()
 	for _, id := range w.granted {
@@ -747,7 +805,16 @@ func c19Gen(r *vRand) c19Case {
 		cs.Setup = append(cs.Setup, op)
 	}
 	var must *c19Res
-	if cs.Acks != 0 && r.Chance(15) {
+	if cs.Acks != 0 && r.Chance(10) {
+		// graceful shutdown in progress: the handler's broker owns p, ReleaseAll's revoke is applied
+		// but unanswered, the other broker takes p, and a produce for p arrives at the draining broker
+		p := r.Intn(3)
+		cs.Setup = append(cs.Setup, c19Setup{K: "produce", B: 0, R: p}, c19Setup{K: "drainhold", B: 0})
+		if r.Chance(80) {
+			cs.Setup = append(cs.Setup, c19Setup{K: "acquire", B: 1, R: p})
+		}
+		must = &c19Pool[p]
+	} else if cs.Acks != 0 && r.Chance(15) {
 		// lazy session loss: the handler's broker owns p (produce ok), loses its session, and the
 		// first code to notice is getOrCreateSession, reached by a produce for ANOTHER partition q;
 		// the other broker takes p over; then a produce for p arrives at the stale broker
@@ -827,6 +894,10 @@ func c19Corpus() []c19Case {
 		{Leasing: true, EtcdAvail: true, S3: "healthy", Acks: -1,
 			Setup: []c19Setup{{K: "acquire", B: 0, R: 0}, {K: "restart", B: 0}, {K: "acquire", B: 0, R: 0}, {K: "orphan"}, {K: "acquire", B: 1, R: 0}},
 			Req:   []c19Topic{{Topic: "orders", Parts: ok(0)}}},
+		// draining broker: revoke applied but unanswered, the other broker acquires, produce arrives
+		{Leasing: true, EtcdAvail: true, S3: "healthy", Acks: -1,
+			Setup: []c19Setup{{K: "produce", B: 0, R: 0}, {K: "drainhold", B: 0}, {K: "acquire", B: 1, R: 0}},
+			Req:   []c19Topic{{Topic: "orders", Parts: ok(0)}}},
 		// lazy session loss noticed by a produce for another partition; the other broker takes the
 		// stale partition over; a produce for it must be refused
 		{Leasing: true, EtcdAvail: true, S3: "healthy", Acks: -1,
@@ -873,7 +944,7 @@ func c19CoqSetup(op c19Setup) []string {
 		return []string{"SessionExpire " + b}
 	case "restart":
 		return []string{"Restart " + b}
-	case "releaseall":
+	case "releaseall", "drainhold":
 		return []string{"ReleaseAll " + b}
 	case "orphan":
 		return []string{} // the OrphanExpire events are appended from w.revoked
